@@ -358,6 +358,35 @@ func (c *Check) fixedC11() []*plan.Plan {
 			}
 		}
 	}
+	// (2e) normalisation twins: a page respelt in its attribute values (case, blanks) right before and
+	// after the page itself, in one process
+	{
+		n := 96
+		if c.tier == "thorough" {
+			n = 960
+		}
+		for i := 0; i < n; i++ {
+			d := gen.Document(uint64(0x7717 + i*613))
+			tw := gen.NormTwin(d, i/2, i/8)
+			if i%8 == 0 {
+				c.noteDoc(tw)
+			}
+			u := d.URL
+			if u == "" {
+				u = "http://example.com/twin"
+			}
+			p := c.newPlan("history", run, uint64(9800+i), "bubble")
+			run++
+			p.Docs = []plan.Doc{plan.NewDoc("d0", tw.Bytes, tw.Origin), plan.NewDoc("d1", d.Bytes, d.Origin)}
+			p.Options = []plan.Opt{optWithURL("o0", u, 0, 0), optWithURL("o1", u, 1, 0)}
+			if i%2 == 0 {
+				p.Tasks = [][]plan.Op{{{Op: "Reader", Doc: "d0", Opt: "o0"}, {Op: "Reader", Doc: "d1", Opt: "o1"}, {Op: "Reader", Doc: "d0", Opt: "o0"}}}
+			} else {
+				p.Tasks = [][]plan.Op{{{Op: "Reader", Doc: "d1", Opt: "o0"}, {Op: "Reader", Doc: "d0", Opt: "o1"}, {Op: "Reader", Doc: "d1", Opt: "o0"}}}
+			}
+			out = append(out, p)
+		}
+	}
 	// (2c) editions: the same article with word-for-word the same metadata and its body in each of three
 	// scripts, one after the other in one process, in both orders, with and without a <title> element
 	{
